@@ -22,6 +22,28 @@ pub fn same_out(a: &Out, b: &Out, rel: f64) -> bool {
 }
 
 /// small configuration for a kind with leading period n (used by the exhaustive stages)
+/// reset positions for the `resets` stages: each pick decodes to a position that is a multiple of the period
+/// (the ring is back at phase 0), one next to it, an arbitrary one, or one fewer than n inputs after the
+/// previous reset (a second reset before the window refilled)
+pub fn reset_positions(n: usize, len: usize, picks: &[u16]) -> Vec<usize> {
+    let n = n.max(1);
+    let mut v: Vec<usize> = vec![];
+    for &pk in picks {
+        let r = (pk / 4) as usize;
+        let pos = match pk % 4 {
+            0 => n * (1 + r % 4),
+            1 => (n * (1 + r % 4) + 1 + r % 2).saturating_sub(2 * (r % 2)),
+            2 => r % len.max(1),
+            _ => v.last().copied().unwrap_or(n + 1 + r % (n + 1)) + 1 + r % n,
+        };
+        if pos > 0 && pos < len {
+            v.push(pos);
+        }
+    }
+    v.sort_unstable();
+    v.dedup();
+    v
+}
 /// the documented default parameters (what `Default::default()` must be equivalent to)
 pub fn cfg_default(kind: Kind) -> Cfg {
     let dp = kind.default_params();
